@@ -334,7 +334,7 @@ end Restore
 /-! ### File outputs -/
 
 /-- `old`: the handler as found (is_executable neither written nor read, no parent creation);
-    `fixed`: after the repairs F-mkdir and F-execbit. -/
+    `fixed`: after the repairs F-mkdir, F-execbit and F-symlink-dst (a symlink or directory at a file output path is replaced). -/
 inductive Variant where
   | old | fixed
   deriving DecidableEq, Repr
@@ -367,9 +367,18 @@ def restoreFileLoad (v : Variant) (digest : Digest) (exec : Bool) (cas : Cas) (f
     match v with
     | .old => createFile fs p c none
     | .fixed =>
-      match mkdirAll fs (parentOf p) with
+      -- a symlink or a directory at the output path is removed first (Lstat: not a regular file => os.RemoveAll)
+      let cleared : Except Err Entry :=
+        match fs.get p with
+        | some (.dir _) => removeAll fs p
+        | some (.link _) => removeAll fs p
+        | _ => .ok fs
+      match cleared with
       | .error e => .error e
-      | .ok fs1 => createFile fs1 p c (some exec)
+      | .ok fs0 =>
+        match mkdirAll fs0 (parentOf p) with
+        | .error e => .error e
+        | .ok fs1 => createFile fs1 p c (some exec)
 
 /-- `FileOutputHandler.Load`: nothing is fetched when the local file already hashes to the stored digest
     (fixed: its executable bit is still brought in line with the stored flag). -/
